@@ -40,7 +40,8 @@ EXPECT_PROBES = ["image_pointer_advanced", "image_pointer_old", "ack_durable", "
 
 OPS = ["create", "append", "append_with", "append_explicit", "multi", "delete_file", "delete_file_append", "expire",
        "expire_append", "delete_snapshot", "gc0", "shared_threads", "shared_threads", "separate_handles",
-       "files_append_raw", "files_append_raw_dir", "files_append_raw_twice", "files_append_raw_twice_flat"]
+       "files_append_raw", "files_append_raw_dir", "files_append_raw_twice", "files_append_raw_twice_flat",
+       "files_append_raw_late", "files_append_raw_late_garbage"]
 
 
 def gen(rng: random.Random, tier: str, idx: int) -> dict:
